@@ -60,12 +60,16 @@ def norm_lark(t, named):
     return ('tree', t[1], tuple(norm_lark(c, named) for c in t[2]))
 
 
-def norm_ref(t):
+def norm_ref(t, same=None):
+    """same: {('lit', text): NAME} for anonymous literals that coincide with a named terminal (lark gives the token
+    that terminal's name)."""
     if t is None:
         return None
     if t[0] == 'tok':
+        if same and t[1] in same:
+            return ('tok', same[t[1]], t[2])
         return ('tok', t[1][1] if t[1][0] == 'tok' else None, t[2])
-    return ('tree', t[1], tuple(norm_ref(c) for c in t[2]))
+    return ('tree', t[1], tuple(norm_ref(c, same) for c in t[2]))
 
 
 def valid_derivation(t, g, text, named):
